@@ -95,9 +95,10 @@ func (c *conn) Close() error {
 // Returns any error encountered while closing the stream.
 func (c *conn) terminate(err error) error {
 	c.cancel(err) // Cancel the server context
-	if tx := c.tx.Swap(chan txMsg(nil)); tx != nil && tx != chan txMsg(nil) {
-		close(tx.(chan txMsg))
-	}
+	// The outgoing channel is not closed: a sender may already hold it and would
+	// panic sending on a closed channel. The write loop and the senders all
+	// select on the cancelled context instead.
+	c.tx.Swap(chan txMsg(nil))
 	return c.stream.Close() // Close the connection
 }
 
@@ -208,7 +209,9 @@ func (c *conn) send(ctx context.Context, msg *kmip.RequestMessage) error {
 		return err
 	}
 	tx := c.tx.Load().(chan txMsg)
-	errCh := make(chan error)
+	// Buffered: the write loop must be able to report the outcome and go on even
+	// if this sender has already given up waiting.
+	errCh := make(chan error, 1)
 	select {
 	case tx <- txMsg{msg: msg, err: errCh}:
 		select {
